@@ -32,7 +32,9 @@ CLAIMED = {
             "NARROW CLAIM. Decides only the clause of C03 that is visible in the code's shape and necessary for it: the exchange path with EPANET is "
             "unit-system independent and dimensionally right -- every result table read from EPANET's binary file is converted with the conversion "
             "class of its physical dimension using the unit system recorded in that same file, link-status codes map to closed/open/active as "
-            "documented, and EpanetSimulator reads the results of exactly the INP it wrote in the configured units.",
+            "documented, and EpanetSimulator reads the results of exactly the INP it wrote in the configured units. One behavioural clause on the WNTR side, "
+            "bounded to a fixture model: the status change WNTRSimulator attaches to a rule's setting / speed action acts on the branch (THEN / ELSE) that carries "
+            "the action, as EPANET does (interpreted construction of the simulator's controls).",
             "Does NOT decide that the two hydraulic engines agree numerically, control timing against EPANET's own timeline, nor the INP reader versus "
             "the toolkit: those are run-time facts outside static reach. The writer's field conversions are decided under C12, the constants under C17.",
             "DESIGN.md §4 C03"),
